@@ -39,7 +39,7 @@ class Obligation:
 
 class Property:
     def __init__(self, pid, anchors, obligations, harnesses, assumptions, stubs=(),
-                 outside=(), pre_checks=(), post_checks=()):
+                 outside=(), pre_checks=(), post_checks=(), duplicates=()):
         self.id = pid
         self.anchors = anchors            # {harness file: anchored source file in /repo}
         self.obligations = obligations
@@ -49,6 +49,8 @@ class Property:
         self.outside = list(outside)      # what lies outside the bounds
         self.pre_checks = list(pre_checks)    # callables(stage, ctx) -> list of notes / raise Inconclusive
         self.post_checks = list(post_checks)
+        # (harness file, anchored source, fn name, new name, impl header): routine copies of DESIGN.md 2.9
+        self.duplicates = list(duplicates)
 
 
 class Inconclusive(Exception):
